@@ -22,7 +22,7 @@ CAP_E = 3.0e4       # 10 x the C01 constant A: the floor never exceeds CAP_E * E
 MIN_COUNTERS = dict(quick={'honesty_asserted:Derivative': 1200, 'honesty_asserted:Gradient': 150,
                            'honesty_asserted:Jacobian': 150, 'honesty_asserted:Hessdiag': 150,
                            'honesty_asserted:Hessian': 150, 'record_asserted': 3000,
-                           'estimate_decided_the_case': 100, 'stationary_point_entries_asserted': 60},
+                           'estimate_decided_the_case': 100, 'stationary_point_entries_asserted': 60, 'overlapping_f_value_asserted': 60},
                     thorough={'honesty_asserted:Derivative': 60000})
 RULE = ('Input classes and histories as in C01, plus full_output switched on after construction, stationary points with a single difference quotient, and the C01 corpus. ' 
         'Derivative cases as in C01 (random expression programs x points x every (method, n, order) cell x step '
@@ -79,6 +79,10 @@ def cases(rng, tier, shard, nshards):
         for c in KNOWN_WITNESSES:
             yield dict(c)
     total = BUDGET[tier] // nshards
+    for j in range(6 if tier == 'quick' else 60):
+        yield dict(kind='overlap', cls=['Derivative', 'Gradient', 'Jacobian', 'Hessdiag', 'Hessian'][(j + shard) % 5],
+                   method=str(rng.choice(['central', 'forward', 'backward', 'complex'])), threads=bool(j % 2),
+                   at=int(rng.integers(1, 6)), xa=float(np.round(rng.uniform(0.3, 1.5), 3)), xb=float(np.round(rng.uniform(-1.5, -0.3), 3)))
     ncells = sum((D.NMAX[m] + 1) * 8 for m in D.METHODS)
     k = shard
     for i in range(total):
@@ -370,7 +374,83 @@ def run_multi(case, ctx):
                         error_estimate=est.ravel()[:3]))
 
 
+def run_overlap(case, ctx):
+    """f_value equals f(x) of *that* call also when two calls of one object overlap: call A is paused inside one of its function
+    evaluations while call B (another point) runs to completion - from a second thread, or because the function itself uses the
+    object (re-entrant use).  Only the f_value clause is judged for such calls."""
+    import threading
+    import numdifftools as nd
+    cls = case['cls']
+    multi = cls != 'Derivative'
+
+    def base(z):
+        if not multi:
+            return np.exp(0.5 * z) + z * z
+        v = np.exp(0.5 * z[0]) + z[0] * z[1] + z[1] * z[1]
+        return np.array([v, 2.0 * v]) if cls == 'Jacobian' else v
+    xa = np.array([case['xa'], 0.25]) if multi else case['xa']
+    xb = np.array([case['xb'], -0.5]) if multi else case['xb']
+    state = dict(n=0, b=None, busy=False)
+    obj_box = []
+    go_b, b_done = threading.Event(), threading.Event()
+
+    def f(z):
+        me = threading.current_thread().name
+        if me != 'vf-B' and not state['busy']:
+            state['n'] += 1
+            if state['n'] == case['at']:
+                state['busy'] = True
+                if case['threads']:
+                    go_b.set()
+                    b_done.wait(60)
+                else:
+                    try:
+                        state['b'] = obj_box[0](xb)
+                    except Exception as exc:
+                        state['b'] = exc
+                state['busy'] = False
+        return base(z)
+    kw = dict(method=case['method'], full_output=True)
+    obj_box.append(getattr(nd, cls)(f, **kw))
+
+    def run_b():
+        go_b.wait(60)
+        try:
+            state['b'] = obj_box[0](xb)
+        except Exception as exc:
+            state['b'] = exc
+        finally:
+            b_done.set()
+    tb = None
+    if case['threads']:
+        tb = threading.Thread(target=run_b, name='vf-B')
+        tb.start()
+    try:
+        with np.errstate(all='ignore'):
+            a = obj_box[0](xa)
+    except Exception as exc:
+        a = exc
+    if tb is not None:
+        go_b.set()
+        tb.join(60)
+    ctx.count('overlapping_calls_of_one_object:' + ('threads' if case['threads'] else 'reentrant'))
+    for label, res, xx in (('A', a, xa), ('B', state['b'], xb)):
+        if res is None or isinstance(res, Exception):
+            ctx.count('overlapping_call_raised_or_not_reached')
+            continue
+        fv = np.asarray(res[1].f_value)
+        want = np.asarray(base(np.asarray(xx, dtype=float)))
+        ctx.count('overlapping_f_value_asserted')
+        if fv.shape != want.shape or fv.tobytes() != want.astype(fv.dtype).tobytes():
+            ctx.reject('f_value_differs_from_f_at_x', observed=fv, expected=want,
+                       detail=dict(call=label, overlapped=('second thread' if case['threads'] else 're-entrant use'), cls=cls), cls=cls)
+            return
+    ctx.nontrivial(('overlap', cls, case['method'], case['threads']))
+
+
 def run_case(case, ctx):
+    if case['kind'] == 'overlap':
+        return run_overlap(case, ctx)
     if case['kind'] == 'derivative':
         run_derivative(case, ctx)
     else:
